@@ -532,6 +532,7 @@ pub(crate) fn break_recursive_bounds(
 
     bounds
         .into_iter()
+        .filter_map(peel_references)
         .flat_map(|predicate| match &predicate {
             syn::WherePredicate::Type(p)
                 if p.lifetimes.is_none()
@@ -548,6 +549,56 @@ pub(crate) fn break_recursive_bounds(
             _ => vec![predicate],
         })
         .collect()
+}
+
+/// Moves an inferred bound on a reference type (`&'a T: Debug`) to its referent (`T: Debug`),
+/// which holds whenever the former does.
+///
+/// Next to another bound on the same parameter, a bound on `&'a T` makes the compiler resolve
+/// `&'x T: Debug` for ANY lifetime through that predicate instead of the blanket impl for
+/// references, and a field of type `T` (formatted through a reference to it) or `&'b T` no longer
+/// fits it. Every reference implements [`fmt::Pointer`], so such a bound is dropped.
+///
+/// [`fmt::Pointer`]: std::fmt::Pointer
+fn peel_references(
+    mut predicate: syn::WherePredicate,
+) -> Option<syn::WherePredicate> {
+    if let syn::WherePredicate::Type(p) = &mut predicate {
+        let inferred = p.lifetimes.is_none()
+            && p.bounds.len() == 1
+            && matches!(
+                &p.bounds[0],
+                syn::TypeParamBound::Trait(t) if t.path.segments.len() == 4
+                    && t.path.segments[0].ident == "derive_more"
+                    && t.path.segments[2].ident == "fmt",
+            );
+        if inferred {
+            let mut peeled = false;
+            loop {
+                match &p.bounded_ty {
+                    syn::Type::Reference(r) => {
+                        p.bounded_ty = (*r.elem).clone();
+                        peeled = true;
+                    }
+                    syn::Type::Paren(syn::TypeParen { elem, .. })
+                    | syn::Type::Group(syn::TypeGroup { elem, .. })
+                        if matches!(**elem, syn::Type::Reference(_)) =>
+                    {
+                        p.bounded_ty = (**elem).clone();
+                    }
+                    _ => break,
+                }
+            }
+            let is_pointer = matches!(
+                &p.bounds[0],
+                syn::TypeParamBound::Trait(t) if t.path.segments[3].ident == "Pointer",
+            );
+            if peeled && is_pointer {
+                return None;
+            }
+        }
+    }
+    Some(predicate)
 }
 
 /// Representation of a formatting placeholder.
